@@ -270,7 +270,16 @@ def gen_message(m):
     for f in m.fields:
         v = 'r%d' % f.index
         if f.gobasic == 'string' and not f.is_enum:
-            w('\t%s := verifNondetString(strk)' % v)
+            sidx = [x.index for x in m.fields if x.gobasic == 'string' and not x.is_enum].index(f.index)
+            w('\tk%d := strk' % f.index)
+            w('\tif strk >= 1000 {')
+            w('\t\t// string number strk-1000 is longer than its field by 3, every other string has one byte')
+            w('\t\tk%d = 1' % f.index)
+            w('\t\tif strk-1000 == %d {' % sidx)
+            w('\t\t\tk%d = %d' % (f.index, f.strlen + 3))
+            w('\t\t}')
+            w('\t}')
+            w('\t%s := verifNondetString(k%d)' % (v, f.index))
             w('\tm.%s = %s' % (f.go, v))
         elif f.arr:
             bits = 64 if f.is_enum else f.size * 8
